@@ -44,11 +44,13 @@ pub fn profile_for(prop: &str, thorough: bool) -> Profile {
     let mut p = Profile { thorough, ..Profile::default() };
     match prop {
         "C03" => {
+            p.preset_incident_permille = 40;
             p.min_len = 3;
             p.max_len = if thorough { 14 } else { 9 };
             p.knob_permille = 150;
         }
         "C02" => {
+            p.preset_incident_permille = 40;
             p.class_a_permille = 250;
             p.knob_permille = 200;
             p.multi = true;
@@ -69,6 +71,7 @@ pub fn profile_for(prop: &str, thorough: bool) -> Profile {
             });
         }
         "C07" => {
+            p.preset_incident_permille = 60;
             p.max_len = if thorough { 30 } else { 18 };
             p.legal_bias_permille = 500;
             p.small_start_permille = 350;
@@ -99,6 +102,7 @@ pub fn profile_for(prop: &str, thorough: bool) -> Profile {
             });
         }
         "C01" => {
+            p.preset_incident_permille = 60;
             p.min_len = 0;
             p.max_len = 0;
             p.random_ctor = true;
@@ -157,6 +161,7 @@ pub fn profile_for(prop: &str, thorough: bool) -> Profile {
             });
         }
         "C19" => {
+            p.preset_incident_permille = 60;
             p.class_a_permille = 200;
             p.knob_permille = 500;
             p.multi = true;
@@ -200,6 +205,7 @@ pub fn profile_for(prop: &str, thorough: bool) -> Profile {
             });
         }
         "C15" => {
+            p.preset_incident_permille = 40;
             p.class_a_permille = 150;
             p.knob_permille = 150;
             p.multi = true;
